@@ -88,8 +88,11 @@ type C10Disturbance struct {
 
 type C10Fault struct {
 	Call int `json:"call"`
-	Kind int `json:"kind"` // 0 error-before, 1 lost response, 2 crash before, 3 crash after
+	Kind int `json:"kind"` // 0 error-before, 1 lost response, 2 crash before, 3 crash after, 4 concurrent write on the object
 }
+
+// C10ConcurrentWrite is the fault kind "a third party updates the PKO object right before PKO's own write on it".
+const C10ConcurrentWrite = 4
 
 type C10Drift struct {
 	At   int  `json:"at"`
@@ -130,6 +133,16 @@ func runC10(script *Scenario, d C10Disturbance) (*c10Result, error) {
 			return kubesim.FaultNone
 		}
 		global++
+		if k, ok := faultAt[global]; ok && k == C10ConcurrentWrite {
+			// somebody else writes the PKO object this call is about to write (another controller's status update, a user's
+			// annotation): the call itself is not tampered with and fails with a conflict if it carries the version it read
+			delete(faultAt, global)
+			if !c.DryRun && c.Key.Group == engine.PKOGroup && (c.Verb == "update" || c.Verb == "patch" || c.Verb == "update-status") {
+				r.touchObject(c.Key)
+				r.Labels["fault-fired"], r.Labels["fault-on-write"] = true, true
+			}
+			return kubesim.FaultNone
+		}
 		if k, ok := faultAt[global]; ok {
 			delete(faultAt, global)
 			r.Labels["fault-fired"] = true
